@@ -59,7 +59,7 @@ func genCase(t *rapid.T) Case {
 			continue
 		}
 		st := Step{Slot: rapid.SampledFrom([]int{0, 0, 1, 1, 2, -1}).Draw(t, "slot")}
-		st.Kind = rapid.SampledFrom([]string{"open", "open", "data", "data", "poll", "close", "bsend", "bsend", "bclose", "group", "group", "group", "open-race", "mute-session"}).Draw(t, "kind")
+		st.Kind = rapid.SampledFrom([]string{"open", "open", "data", "data", "poll", "close", "bsend", "bsend", "bclose", "group", "group", "group", "open-race", "mute-session", "bclose-then-data"}).Draw(t, "kind")
 		switch st.Kind {
 		case "data":
 			st.Arg = rapid.SampledFrom([]string{"valid", "valid", "valid", "malformed", "wrong-type", "empty-list", "not-base64",
@@ -301,6 +301,9 @@ func runCase(c *Case) vh.Outcome {
 				allowed = []int{400}
 			case state == "open":
 				allowed = []int{200}
+			case state == "bclosed" && s != nil && s.gone:
+				// a poll has already reported this session closed: it is a closed session like any other
+				allowed = []int{400}
 			case state == "bclosed":
 				allowed = []int{200, 400}
 			default:
@@ -382,6 +385,30 @@ func runCase(c *Case) vh.Outcome {
 				}()
 			}
 			s.pending += st.N
+		case "bclose-then-data":
+			// the backend closes (at most a few messages queued, so that the agent's reader gets to the close frame), the
+			// closing handshake completes, and only then the client posts data: the session is closed, the message cannot
+			// be delivered, and the call must say so
+			if s == nil || state != "open" || s.pending > 5 {
+				continue
+			}
+			o.Classes = append(o.Classes, "data-after-completed-backend-close")
+			s.sends.Wait()
+			s.bc.Close()
+			s.state = "bclosed"
+			select {
+			case <-s.bc.Closed():
+			case <-time.After(5 * time.Second):
+				continue // the agent has not answered the close frame yet: nothing to assert
+			}
+			time.Sleep(100 * time.Millisecond)
+			res := call("data", dataBody(id, "valid", 1))
+			if err := answered(res); err != nil {
+				return fail(i, "data after a backend close: %v", err)
+			}
+			if res.Status != 400 {
+				return fail(i, "the backend closed the websocket and the closing handshake completed 100ms ago, yet a data post on that session answered %d (the message can no longer be delivered; a closed session is to be rejected with 400)", res.Status)
+			}
 		case "bclose":
 			if s == nil || state != "open" {
 				continue
